@@ -41,6 +41,8 @@ type shrinkCase struct {
 	Batches    [][][]string `json:"batches"` // writes issued at successive gate stages
 	CrashStage string       `json:"crash_stage"`
 	Pump       bool         `json:"pump"` // a free-running writer streams SETs from the before-swap stage until the shrink ended
+	Boundary   []int        `json:"boundary,omitempty"` // ops aimed at the scan cursor, one per batch boundary inside a collection
+	Revive     bool         `json:"revive,omitempty"`   // an object's deadline elapses before its batch is scanned and is lifted right after
 }
 
 type colSpec struct {
@@ -181,6 +183,10 @@ func drawCase(rt *rapid.T) shrinkCase {
 	stages := append([]string{"", "", "", "", ""}, swapStages...)
 	sc.CrashStage = rapid.SampledFrom(stages).Draw(rt, "crashstage")
 	sc.Pump = rapid.Bool().Draw(rt, "pump")
+	if rapid.Bool().Draw(rt, "boundary?") {
+		sc.Boundary = rapid.SliceOfN(rapid.IntRange(0, 5), 1, 6).Draw(rt, "boundary")
+	}
+	sc.Revive = rapid.IntRange(0, 3).Draw(rt, "revive") == 0
 	return sc
 }
 
@@ -305,6 +311,56 @@ func runCase(t ev.Failer, c *ev.Collector, sc shrinkCase) (labels []string) {
 			fail("shrink-changes-served-state", fmt.Sprintf("during the shrink %s answered %s on the shrinking server and %s on the twin", t38.CmdString(cmd), vs, vt))
 		}
 	}
+	// bothLoose is both() for commands whose outcome depends on whether the
+	// background sweeper has already run (elapsed deadlines): differing replies
+	// make the case inconclusive instead of a violation.
+	diverged := false
+	bothLoose := func(cmd []string) {
+		vs, err1 := cs.Do(cmd...)
+		vt, err2 := ct.Do(cmd...)
+		if err1 != nil || err2 != nil {
+			t.Fatalf("transport: %v %v", err1, err2)
+		}
+		if !vs.Equal(vt) {
+			diverged = true
+		}
+	}
+	// mirror of the rewrite's scan cursor, derived from the dataset at the start
+	type colIDs struct {
+		key string
+		ids []string
+	}
+	var scan []colIDs
+	{
+		m := map[string]map[string]bool{}
+		for _, cmd := range ds {
+			if strings.ToLower(cmd[0]) == "set" {
+				if m[cmd[1]] == nil {
+					m[cmd[1]] = map[string]bool{}
+				}
+				m[cmd[1]][cmd[2]] = true
+			}
+		}
+		var keys []string
+		for k := range m {
+			keys = append(keys, k)
+		}
+		sort.Strings(keys)
+		for _, k := range keys {
+			var ids []string
+			for id := range m[k] {
+				ids = append(ids, id)
+			}
+			sort.Strings(ids)
+			scan = append(scan, colIDs{k, ids})
+		}
+	}
+	ki, bi, boundaryUsed := 0, 0, 0
+	var reviveKey, reviveID string
+	if sc.Revive && len(scan) > 0 && len(scan[0].ids) > 0 {
+		reviveKey, reviveID = scan[0].key, scan[0].ids[0]
+	}
+	reviveState := 0
 	armed.Lock()
 	isArmed = true
 	armed.Unlock()
@@ -373,6 +429,60 @@ loop:
 				close(e.release)
 			default:
 				gates++
+				if reviveKey != "" && reviveState == 0 && e.name == "keys-batch" {
+					// the deadline elapses before the object's batch is scanned ...
+					bothLoose([]string{"EXPIRE", reviveKey, reviveID, "0"})
+					reviveState = 1
+				} else if reviveKey != "" && reviveState == 1 && e.name == "ids-batch" {
+					// ... and is lifted right after (the sweeper has usually not run yet)
+					// the object must be safely persistent again on BOTH servers, otherwise it
+					// stays due and the two sweepers remove it at different moments
+					vs, err1 := cs.Do("PERSIST", reviveKey, reviveID)
+					vt, err2 := ct.Do("PERSIST", reviveKey, reviveID)
+					if err1 != nil || err2 != nil {
+						t.Fatalf("transport: %v %v", err1, err2)
+					}
+					if !(vs.Kind == ':' && vs.Int == 1 && vt.Kind == ':' && vt.Int == 1) {
+						diverged = true
+					}
+					reviveState = 2
+					writesDuring++
+				}
+				if e.name == "ids-batch" && ki < len(scan) {
+					ids := scan[ki].ids
+					end := 32 * (bi + 1)
+					if end < len(ids) {
+						// a batch boundary inside a collection: ids[end-1] was just written, ids[end] comes next
+						if boundaryUsed < len(sc.Boundary) {
+							key := scan[ki].key
+							last, next := ids[end-1], ids[end]
+							var cmd []string
+							switch sc.Boundary[boundaryUsed] {
+							case 0:
+								cmd = []string{"DEL", key, last}
+							case 1:
+								cmd = []string{"DEL", key, next}
+							case 2:
+								cmd = []string{"SET", key, last + "+", "POINT", "7", "7"} // sorts between last and next
+							case 3:
+								cmd = []string{"FSET", key, last, "newf", "9"}
+							case 4:
+								cmd = []string{"SET", key, next, "FIELD", "newf", "3", "STRING", "moved"}
+							default:
+								cmd = []string{"PDEL", key, last[:len(last)-1] + "*"}
+							}
+							boundaryUsed++
+							if !(reviveKey == key && (reviveID == last || reviveID == next)) {
+								both(cmd)
+								writesDuring++
+							}
+						}
+						bi++
+					} else {
+						ki++
+						bi = 0
+					}
+				}
 				if batch < len(sc.Batches) {
 					for _, cmd := range sc.Batches[batch] {
 						name := strings.ToLower(cmd[0])
@@ -403,6 +513,20 @@ loop:
 	armed.Lock()
 	isArmed = false
 	armed.Unlock()
+	if reviveState == 1 {
+		diverged = true // deadline elapsed but never lifted
+	}
+	if diverged {
+		// the sweeper ran between the two servers' copies of a deadline-dependent command
+		c.Inconclusive("revive case: the twins answered a deadline-dependent command differently (sweeper timing)")
+		return []string{"revive-diverged"}
+	}
+	if reviveState == 2 {
+		labels = append(labels, "revived-after-deadline-during-scan")
+	}
+	if boundaryUsed > 0 {
+		labels = append(labels, "write-at-batch-boundary")
+	}
 	if gates > 1 {
 		labels = append(labels, "multi-batch")
 	}
@@ -527,7 +651,7 @@ func caseKey(sc shrinkCase, labels []string) string {
 		b.WriteString("|")
 	}
 	b.WriteString(sc.CrashStage)
-	fmt.Fprint(&b, sc.Pump)
+	fmt.Fprint(&b, sc.Pump, sc.Boundary, sc.Revive)
 	return b.String()
 }
 
